@@ -5,6 +5,7 @@ def build(u):
     m = Src.get("messages.rs")
     u.raw("use vstd::prelude::*;\nverus! {\n")
     u.env("prelude.rs")
+    u.env("std_extra.rs")
     u.canary_decls()
     u.spec("fee_spec.rs", shared=True)
     u.spec("fee.rs")
